@@ -267,6 +267,34 @@ def run(ctx):
         case["backend"] = be
         case["masked_input"] = rng.choice([None, None, None, "none", "partial"])        # the constructor is handed a MaskedArray with no / a partial mask of its own
         plan["tf" if be in ("tf", "numpy_with_tf") else be].append(case)
+    # planned cases, every run: normalize / normalize_distribution on each backend that offers them, with a reference point that is missing in one frame and
+    # observed (together with the other) in another — the statistic must come from the observed frames only, whatever is stored at the missing one
+    for be in ("tf", "numpy", "tf", "numpy_with_tf"):
+        for opk in ("normalize", "normalize_distribution"):
+            case = gen_case(rng)
+            b = case["body"]
+            tries = 0
+            while (b["frames"] < 2 or b["points"] < 2) and tries < 50:
+                case = gen_case(rng); b = case["body"]; tries += 1
+            if b["frames"] < 2 or b["points"] < 2:
+                continue
+            F, P, N = b["frames"], b["people"], b["points"]
+            conf = pc.bits_to_f32(b["conf"], (F, P, N)).copy()
+            p1, p2 = rng.sample(range(N), 2)
+            conf[:, :, [p1, p2]] = 1.0
+            conf[rng.randrange(F - 1), rng.randrange(P), rng.choice([p1, p2])] = 0.0      # missing in one of the first F−1 frames; the last frame keeps both
+            b["conf"] = pc.f32_to_bits(conf)
+            data = pc.bits_to_f32(b["data"], (F, P, N, b["dims"])).copy()
+            data[:, :, p2, 0] += 3.0                                                      # the two reference points are apart
+            b["data"] = pc.f32_to_bits(data)
+            k1, f1 = rng.choice([("special", list(SPECIAL[k])) for k in SPECIAL if k != "finite"]); k2, f2 = gen_fill(rng)
+            case["fill1"], case["fill2"], case["fills"] = f1, f2, [k1, k2]
+            op = {"k": "normalize", "p1": p1, "p2": p2, "scale": 1} if opk == "normalize" else {"k": opk, "axis": [0, 1]}
+            case["ops"] = ([{"k": "to_tf"}] if be == "numpy_with_tf" else []) + [op]
+            case["backend"] = be
+            case["masked_input"] = None
+            case["planned"] = "reference point missing in one frame"
+            plan["tf" if be in ("tf", "numpy_with_tf") else be].append(case)
     plan["numpy"].insert(0, k4_witness())
     results = []
     for be in ("numpy", "torch"):
